@@ -5,6 +5,8 @@ from ..probe import call
 from ..ref import bits
 
 LEVEL = "exploration"
+TECHNIQUE = 'runtime monitoring: forward frame builder (AA field / address-parity overlay) as oracle on real icao() calls + aircraft-table state check'
+LEVEL_TEXT = 'Exploration over DF(32) x length x letter case with structured and random addresses; exact string equality with the canonical form; one integration monitor on Decode.acs keys.'
 LEVEL_RULE = (
     "common.icao / pyModeS.icao / adsb.icao / allcall.icao called on frames built forward for every DF 0..31, both lengths, "
     "with a chosen address (AA field for DF11/17/18; AP = parity XOR address for DF0/4/5/16/20/21; interrogator overlay for "
